@@ -280,11 +280,12 @@ func runAltCase(e *Env, c *jAltCase) error {
 			flags[j] = gbool(w == nil || evalPred(w, dims))
 		}
 		var vals []string
-		if len(p.Vals) > 0 {
+		nv := p.numVals()
+		if len(nv) > 0 {
 			vals = append(vals, "(9, 1)")
 		}
 		for _, f := range []string{"a", "b", "c", "x"} {
-			if v, ok := p.Vals[f]; ok {
+			if v, ok := nv[f]; ok {
 				vals = append(vals, fmt.Sprintf("(%d, %s)", fieldID(f), gz(v)))
 			}
 		}
